@@ -112,8 +112,23 @@ pub fn run_one(run: u64, seed: u64) -> RunOut {
                 let ((mut tx_ay, rx_ay), (mut tx_by, rx_by)) = open_port(&a.client, &mut b.listener).await?;
                 let _idle = rx_bx; // kept alive, never polled
                 let big = cfg_b.receive_buffer as usize * 3 + 5;
+                let fill = cfg_b.receive_buffer as usize;
+                let x_connect = rng.chance(50);
                 let xs = crate::sched::spawn(async move {
-                    let _ = tx_ax.send(Bytes::from(payload(7, big))).await;
+                    if x_connect {
+                        // use up the whole window with data nobody consumes, then ask for ports on that port
+                        let _ = tx_ax.send(Bytes::from(payload(7, fill))).await;
+                        let alloc = tx_ax.port_allocator();
+                        let mut ports = Vec::new();
+                        for _ in 0..2 {
+                            if let Some(p) = alloc.try_allocate() {
+                                ports.push(PortReq::new(p));
+                            }
+                        }
+                        let _ = tx_ax.connect(ports, true).await;
+                    } else {
+                        let _ = tx_ax.send(Bytes::from(payload(7, big))).await;
+                    }
                     tx_ax
                 });
                 let n = n_msgs;
